@@ -617,8 +617,24 @@ def sweep_one(cfg, konly=None, timeout=240):
     return {'cfg': cfg, 'rows': rows, 'end': end, 'rc': rc, 'tail': out[-300:]}
 
 
+def sweep_configs(tier):
+    if tier != 'thorough':
+        return SWEEP_CONFIGS
+    import itertools
+    pres = ['-'] + [''.join(p) for n in (1, 2, 3) for p in itertools.product('st', repeat=n)]
+    cfgs = []
+    for e in 'or':
+        for o in 'pwf':
+            for pre in pres + (['sssss', 'ssssss', 'ssssst', 'tsssss', 'ttttts'] if e == 'r' else []):
+                if pre == '-' and o != 'p':
+                    continue
+                cfgs.append((e, o, pre))
+    return cfgs
+
+
 def instr_sweep(ctx, want):
     from concurrent.futures import ThreadPoolExecutor
+    SWEEP_CONFIGS = sweep_configs(ctx.tier)
     with ThreadPoolExecutor(max_workers=12) as ex:
         results = list(ex.map(sweep_one, SWEEP_CONFIGS))
     hits, total, incomplete, per = {}, 0, [], {}
@@ -694,6 +710,11 @@ def close_one(cfg, konly=None, timeout=240):
 
 def close_sweep(ctx, want):
     from concurrent.futures import ThreadPoolExecutor
+    CLOSE_CONFIGS = globals()['CLOSE_CONFIGS']
+    if ctx.tier == 'thorough':
+        import itertools
+        pres = [''.join(p) for n in (1, 2, 3) for p in itertools.product('st', repeat=n)]
+        CLOSE_CONFIGS = [('q', '-')] + [(o, pre) for o in 'qwf' for pre in pres]
     with ThreadPoolExecutor(max_workers=10) as ex:
         results = list(ex.map(close_one, CLOSE_CONFIGS))
     hits, total, incomplete, per = {}, 0, [], {}
